@@ -149,11 +149,13 @@ func (s *ctStream) feed(t tracers.Tracer, env *vm.EVM) (panicked string) {
 	for _, e := range s.Evs {
 		n := e.N
 		switch e.E {
-		case "start":
+		case "txstart":
 			t.CaptureTxStart(ctGasLimit)
+		case "start":
 			t.CaptureStart(env, s.fromAddr(n), s.toAddr(n), false, ctIn(n), ctGas(n), s.value(n))
 		case "end":
 			t.CaptureEnd(ctOut(n), ctUsed(n), ctErr(s.node(n).Err))
+		case "txend":
 			t.CaptureTxEnd(ctRest)
 		case "enter":
 			t.CaptureEnter(ctOp(s.node(n).Kind), s.fromAddr(n), s.toAddr(n), ctIn(n), ctGas(n), s.value(n))
@@ -161,18 +163,17 @@ func (s *ctStream) feed(t tracers.Tracer, env *vm.EVM) (panicked string) {
 			t.CaptureExit(ctOut(n), ctUsed(n), ctErr(s.node(n).Err))
 		case "aenter":
 			f := s.node(n).Under
-			jp := actypes.JoinPointRunType_PreContractCall
-			var msg interface{ ProtoReflect() }
-			_ = msg
-			if s.node(n).Jp == "post" {
-				jp = actypes.JoinPointRunType_PostContractCall
-			}
+			jp := ctJP(s.node(n).Jp)
 			idx := uint64(f)
 			g := ctAGas(n)
 			from := s.fromAddr(f)
 			to := s.toAddr(f)
 			if al != nil {
-				if jp == actypes.JoinPointRunType_PreContractCall {
+				if jp == actypes.JoinPointRunType_PreTxExecute {
+					al.CaptureAspectEnter(jp, from, to, ctAspect(n), ctIn(f), ctAGas(n), s.value(f), &actypes.PreTxExecuteInput{})
+				} else if jp == actypes.JoinPointRunType_PostTxExecute {
+					al.CaptureAspectEnter(jp, from, to, ctAspect(n), ctIn(f), ctAGas(n), s.value(f), &actypes.PostTxExecuteInput{})
+				} else if jp == actypes.JoinPointRunType_PreContractCall {
 					al.CaptureAspectEnter(jp, from, to, ctAspect(n), ctIn(f), ctAGas(n), s.value(f),
 						&actypes.PreContractCallInput{Call: &actypes.PreExecMessageInput{From: from.Bytes(), To: to.Bytes(), Index: &idx, Data: ctIn(f), Value: []byte{byte(f)}, Gas: &g}})
 				} else {
@@ -181,10 +182,7 @@ func (s *ctStream) feed(t tracers.Tracer, env *vm.EVM) (panicked string) {
 				}
 			}
 		case "aexit":
-			jp := actypes.JoinPointRunType_PreContractCall
-			if s.node(n).Jp == "post" {
-				jp = actypes.JoinPointRunType_PostContractCall
-			}
+			jp := ctJP(s.node(n).Jp)
 			if al != nil {
 				al.CaptureAspectExit(jp, &actypes.AspectExecutionResult{Gas: ctALeft(n), Ret: ctAOut(n), Err: ctErr(s.node(n).Err)})
 			}
@@ -255,10 +253,27 @@ func (s *ctStream) expFrame(n int, top bool, onlyTop bool) map[string]interface{
 }
 
 func jpTypeName(jp string) string {
-	if jp == "post" {
+	switch jp {
+	case "post":
 		return "postContractCall"
+	case "pretx":
+		return "preTxExecute"
+	case "posttx":
+		return "postTxExecute"
 	}
 	return "preContractCall"
+}
+
+func ctJP(jp string) actypes.JoinPointRunType {
+	switch jp {
+	case "post":
+		return actypes.JoinPointRunType_PostContractCall
+	case "pretx":
+		return actypes.JoinPointRunType_PreTxExecute
+	case "posttx":
+		return actypes.JoinPointRunType_PostTxExecute
+	}
+	return actypes.JoinPointRunType_PreContractCall
 }
 
 func (s *ctStream) expAsp(a int, onlyTop bool) map[string]interface{} {
